@@ -52,6 +52,10 @@ CHECKS['C09'] = dict(
    text="Deductive over the ghost resource_providers table, with ORM idioms given the semantics of the statements they emit: the real ResourceProvider.create/_create_in_db, save/_update_in_db and destroy/_delete are executed symbolically from an arbitrary table satisfying the forest invariant (ranked parent links, root pointer shared with the parent, parentless rows their own root, root rows exist); each is proved to re-establish it -- for a move with the explicit new rank function depth - depth(moved) + depth(new parent) + 1 on the subtree -- to change no other provider's parent, to report the root that the parent links lead to, to refuse loops, missing parents, providers with children or allocations and, without allow_reparenting, any change of an existing parent, and to leave the database untouched when it raises. The subtree loop of _update_in_db carries an inductive invariant. C14 proves allow_reparenting == (microversion >= 1.37). Always-on bounded stand-in: directed and random request histories on the real stack with the forest re-derived from raw rows and a reference model of the hierarchy.",
    note="A-subtree: ResourceProvider.get_subtree is used through an assumed contract (descendant set of the entry table), its recursive body is exercised by the bounded histories only; A-orm / A-sql: ORM idioms and the two SELECTs (text pinned) by relational spec; that the row a root pointer names survives DELETE is the foreign key's guarantee (A-key); sequential histories only -- interleavings belong to C07.",
    design="4/C09")
+CHECKS['C13'] = dict(
+   text="Deductive contract proof of the real _get_all_by_filters_from_db for 43 presence patterns of the filters (all subsets of size <= 2 of name / uuid / in_tree / member_of / forbidden aggregates / required / forbidden traits / resources, all eight together, two resource classes, unknown-class patterns), values symbolic: with each id-set helper used through the contract 'the ids of the providers with property P', the rows selected by the final statement the real code assembles (its WHERE clause evaluated over the ghost table, FROM clause pinned) are exactly the existing providers satisfying every supplied filter; every supplied filter consults its helper; an early empty answer is returned only when no provider can match; unknown trait / class names raise before any filtering. Always-on bounded stand-in: reference evaluation over the raw rows for single, paired and random filter combinations on four topologies.",
+   note="A-sql: the SQL inside provider_ids_matching_aggregates / provider_ids_matching_required_traits / get_provider_ids_having_any_trait / get_providers_with_resource (multi-way joins, GROUP BY, capacity clause) is not interpreted -- their results are uninterpreted id sets here and only the bounded reference evaluation checks them; presence patterns beyond those listed are not enumerated (the conjunction is assembled filter by filter, independent of the others); query-string parsing (normalize_* helpers) is by contract.",
+   design="4/C13")
 CHECKS['C19'] = dict(
    text="Deductive: (1) regular-language inclusion decided by z3/cvc5 on the real schema objects -- every string accepted by the four name schemas under python's re.search semantics of ^ $ \\Z (the patterns are parsed with python's own sre parser and translated) is CUSTOM_[A-Z0-9_]* of at most 255 characters; (2) data flow through the real handlers of PUT /traits/{name}, POST /resource_classes and PUT /resource_classes/{name} (both overloads): the very string handed to Trait.create / ResourceClass.create / ResourceClass.save was validated against one of those schemas; (3) body proofs over the ghost tables with ORM idioms as statements: ResourceClass.create (retry loop with an inductive invariant, _get_next_id, explicit-key insert, unique name) stores the name under a fresh id >= 10000 and never duplicates a name; ResourceClass.destroy / save and Trait.destroy refuse standard entries before any write, refuse entries in use, and change nothing when they raise. Always-on bounded stand-in: start-up synchronisation from five table states (twice each), 28 name probes x 3 routes + renames, id histories.",
    note="Start-up synchronisation (_trait_sync / _resource_classes_sync) is covered by the bounded stand-in only (label: bounded); A-str: strings are uninterpreted outside the language lemmas, str.startswith is a functional predicate; 'standard class <=> id < 10000' rests on sync assigning list indices (< 10000, checked natively) and create() on ids >= 10000 (proved).",
